@@ -4391,6 +4391,12 @@ class ParameterizedMetaclass(type):
             if not hasattr(cls, '_param__parameters'):
                 continue
             for dep in cls.param._depends['watch']:
+                if dep[0] not in cls.__dict__:
+                    # a registration `cls` itself inherited: it is taken from
+                    # the class defining the method, which with multiple
+                    # inheritance may come earlier in the MRO than the
+                    # ancestor `cls` got it from
+                    continue
                 method = getattr(mcs, dep[0], None)
                 dinfo = getattr(method, '_dinfo', {'watch': False})
                 if (not any(dep[0] == w[0] for w in _watch+_inherited)
